@@ -6,6 +6,7 @@ PROP = dict(
         "hand-written Gallina model coq/Store/Model.v + Store/Conc.v of pkg/core/storage (MemCachedStore, MemoryStore, Bolt/LevelDB range seeks) "
         "and of dao.Simple.Seek/SeekAsync and the Storage.Find iterator keys (tied by correspondence only); it describes the code with "
         "fixes/F1 and fixes/F2 applied",
+        "hook /repo/pkg/core/storage/verif_hooks.go (build tag verif, commit 82737bf): VerifRLock/VerifRUnlock/VerifWriterPending, used to queue a Persist and a reader on the store's lock in a known order; goroutine wait states read through runtime.Stack",
         "harness gate store (parks goroutines at the entry of Seek and entry/exit of PutChangeSet of the base store to play a chosen schedule; delegates unchanged)",
         "Go-side ordered-map oracle in harness/c09*.go: only labels the shape of a deviation for known_findings matching; the verdict is Coq's",
     ],
@@ -22,7 +23,7 @@ META = dict(
          "(prefix, start, direction, search depth, trimming on/off): Get and Seek/SeekAsync/dao.Seek/dao.SeekAsync/Storage.Find keys equal lookup / range_query on ONE "
          "ordered map (sorted, duplicate-free, nothing omitted); MemoryStore, LevelDB and Bolt seeks agree; every flush (each of Persist's three lock regions, PersistPrivate) "
          "leaves that map and hence every full-depth answer unchanged. The model follows the mechanism of performSeek and is tied to the Go code by differential "
-         "evaluation of op histories on MemoryStore/BoltDB/LevelDB and of forced reader/writer/Persist schedules. *Partial*: reader atomicity is proved only for schedules "
+         "evaluation of op histories on MemoryStore/BoltDB/LevelDB and of forced reader/writer/Persist schedules (gate in the base store; and, through the store's own lock, a reader queued behind a queued Persist while the flush is in flight). *Partial*: reader atomicity is proved only for schedules "
          "without a new Persist swap between the reader's snapshot and its lower-store read; with one the statement is false for the code (finding F41, listed, reproduced "
          "deterministically). Findings F1 and F2 are rediscovered by the check and listed until their patches (fixes/F1-*.diff, fixes/F2-*.diff, verified) are committed; the model "
          "describes the repaired code. The F10 data race is not checked.",
